@@ -148,7 +148,24 @@ def build_data(ds):
     if clim is not None:
         kw["clim"] = clim
         kw["clim_type"] = "divide" if cfg.get("div") else "subtract"
-    return verif.data.Data(ins, **kw)
+    given = list(ins)
+    data = verif.data.Data(ins, **kw)
+    # Data() must leave the list it was handed as it was (the driver and API users build several Data objects from
+    # one list: seeded change C14e appended the climatology to the caller's list, so the next object scored it)
+    if len(ins) != len(given) or any(a is not b for a, b in zip(ins, given)):
+        raise CallerListModified("Data(inputs, ...) changed the caller's list of inputs: %d -> %d entries" % (len(given), len(ins)))
+    if data.num_inputs != len(given) or len(data.get_names()) != len(given) or len(data.get_legend()) != len(given):
+        raise ClimatologyScored("num_inputs=%d names=%d legend=%d for %d scored inputs" % (
+            data.num_inputs, len(data.get_names()), len(data.get_legend()), len(given)))
+    return data
+
+
+class CallerListModified(Exception):
+    pass
+
+
+class ClimatologyScored(Exception):
+    pass
 
 
 def field_obj(name):
